@@ -35,7 +35,7 @@
 //@type std::map<pMPI::JobId, pMPI::WorkerId> => IntMap ptr
 //@type std::map<pMPI::JobId, pMPI::WorkerId>::const_iterator|std::_Rb_tree_const_iterator<std::pair<const int, int> ?> => MapIt val
 //@type std::pair<const int, int> => IntPair ptr
-//@type std::vector<WrapType>|std::vector<pMPI::ComputeWrap<Pomerol::HamiltonianPart>(, .*)?> => PartVec ptr
+//@type std::vector<WrapType>|std::vector<pMPI::ComputeWrap<Pomerol::HamiltonianPart>(, .*)?> => SkelPartVec ptr
 //@type pMPI::mpi_skel<pMPI::ComputeWrap<Pomerol::HamiltonianPart> ?> => struct mpi_skel ptr
 //@type boost::scoped_ptr<pMPI::MPIMaster> => MasterPtr ptr
 //@record pMPI::mpi_skel => struct mpi_skel ptr
